@@ -99,6 +99,16 @@ class State(object):
         if c is tm.FALSE:
             self.status = "dead"
             return False
+        if c in self.pc:
+            return True
+        if tm.not_(c) in self.pc:
+            self.status = "dead"
+            return False
+        if c.op == "and":
+            for x in c.args:
+                if not self.assume(x):
+                    return False
+            return True
         self.pc.append(c)
         return True
 
@@ -291,7 +301,8 @@ class Exec(object):
         return m(n, st)
 
     def qt(self, n):
-        return n.get("type", {}).get("qualType", "int")
+        t = n.get("type", {})
+        return t.get("desugaredQualType") or t.get("qualType", "int")
 
     # literals
     def ev_IntegerLiteral(self, n, st):
@@ -761,6 +772,12 @@ class Exec(object):
             r = h(self, st, n, name, recv, args)
             if r is not None:
                 return r
+        if self.ctx.stl is not None and "::" in name:
+            h = self.ctx.stl.method_handler(name.rsplit("::", 1)[0], short)
+            if h is not None:
+                r = h(self, st, n, name, recv, args)
+                if r is not None:
+                    return r
         rs = sort_of(self.qt(n))
         if recv is None and short in MATH_PURE:
             return [(st, self.math(short, args))]
@@ -853,7 +870,10 @@ class Exec(object):
         from . import ast as A
         self.local_ids = set()
         self.addr_taken = set()
+        self.loop_ids = {}
         for x in A.walk(fn):
+            if x.get("kind") in ("ForStmt", "WhileStmt", "DoStmt"):
+                self.loop_ids[x.get("id")] = len(self.loop_ids)
             if x.get("kind") in ("VarDecl", "ParmVarDecl") and "id" in x:
                 self.local_ids.add(x["id"])
             if x.get("kind") == "UnaryOperator" and x.get("opcode") == "&":
@@ -863,7 +883,7 @@ class Exec(object):
                 if c.get("kind") == "DeclRefExpr" and c["referencedDecl"].get("kind") in ("VarDecl", "ParmVarDecl"):
                     self.addr_taken.add(c["referencedDecl"]["id"])
         for i, p in enumerate(A.params_of(fn)):
-            q = p["type"]["qualType"]
+            q = p["type"].get("desugaredQualType") or p["type"]["qualType"]
             name = p.get("name", "arg%d" % i)
             if params is not None and i < len(params) and params[i] is not None:
                 v = params[i]
@@ -929,7 +949,7 @@ class Exec(object):
         return states
 
     def decl_var(self, d, st):
-        q = d["type"]["qualType"]
+        q = d["type"].get("desugaredQualType") or d["type"]["qualType"]
         did, name = d["id"], d.get("name", "_")
         init = d["inner"][0] if d.get("init") and d.get("inner") else None
         if d.get("storageClass") == "static":
@@ -1101,8 +1121,9 @@ class Exec(object):
         return self.loop(n, st)
 
     def loop(self, n, st):
-        ordinal = self.loop_ordinal
-        self.loop_ordinal += 1
+        ordinal = self.loop_ids.get(n.get("id"))
+        if ordinal is None:
+            raise Undecided("loop statement without a syntactic ordinal")
         if self.ctx.loop is None:
             raise Undecided("loop %d without a loop contract" % ordinal)
         r = self.ctx.loop(self, st, n, ordinal)
@@ -1179,3 +1200,108 @@ class Exec(object):
 
     def st_CXXCatchStmt(self, n, st):
         return [st]
+
+
+    # ------------------------------------------------------------ loop summaries
+    def assigned_locals(self, n):
+        """declaration ids of locals assigned anywhere inside node n; and whether memory may be written"""
+        from . import ast as A
+        ids, writes_mem = {}, False
+        for x in A.walk(n):
+            k = x.get("kind")
+            tgt = None
+            if k == "BinaryOperator" and x.get("opcode") == "=":
+                tgt = x["inner"][0]
+            elif k == "CompoundAssignOperator":
+                tgt = x["inner"][0]
+            elif k == "UnaryOperator" and x.get("opcode") in ("++", "--"):
+                tgt = x["inner"][0]
+            elif k in ("CallExpr", "CXXMemberCallExpr", "CXXOperatorCallExpr", "CXXNewExpr", "CXXDeleteExpr"):
+                name = self.callee_name(x["inner"][0]) if x.get("inner") else ""
+                short = name.split("::")[-1]
+                if k in ("CXXNewExpr", "CXXDeleteExpr"):
+                    writes_mem = True
+                elif short not in self.ctx.pure and name not in self.ctx.pure and not (self.ctx.stl is not None and (
+                        self.ctx.stl.method_handler(name.rsplit("::", 1)[0], short) is not None and short in ("size", "empty", "c_str", "length")
+                        or short == "operator[]")):
+                    writes_mem = True
+            if tgt is not None:
+                while tgt.get("kind") == "ParenExpr":
+                    tgt = tgt["inner"][0]
+                if tgt.get("kind") == "DeclRefExpr" and tgt["referencedDecl"].get("kind") in ("VarDecl", "ParmVarDecl") and tgt["referencedDecl"]["id"] in self.local_ids:
+                    ids[tgt["referencedDecl"]["id"]] = (tgt["referencedDecl"].get("name"), self.qt(tgt))
+                else:
+                    writes_mem = True
+        return ids, writes_mem
+
+    def havoc_loop(self, n, st):
+        """sound over-approximation of a loop: every local it assigns becomes arbitrary; memory is
+        havocked if the loop may write it.  Nothing is assumed about the exit condition."""
+        init, cond, inc, body = self.loop_parts(n)
+        states = [st]
+        if init is not None:
+            states = self.exec(init, states)
+        ids, wm = self.assigned_locals(n)
+        for s in states:
+            for did, (name, q) in ids.items():
+                v = s.locals.get(did)
+                if isinstance(v, tuple):
+                    wm = True
+                else:
+                    s.locals[did] = fresh("havoc_" + str(name), sort_of(q))
+            if wm:
+                self.havoc_heap(s, "loop")
+        return states
+
+    def iterate_loop(self, n, st, assume_cond=True):
+        """iteration contract: run the body once for an arbitrary value of the induction variable(s)
+        on the loop-entry state in which every local the loop assigns is arbitrary.
+        Returns the states at the end of the body (before the increment)."""
+        init, cond, inc, body = self.loop_parts(n)
+        states = [st]
+        if init is not None:
+            states = self.exec(init, states)
+        ids, wm = self.assigned_locals(n)
+        pristine = [s.clone() for s in states]
+
+        def one_pass(sts, havoc_keys):
+            out = []
+            for s in sts:
+                for key in havoc_keys:
+                    if key[0] == "f":
+                        s.heap[key] = tm.sym("Hiter.%s:%s" % (key[1], key[2]), ("A", "P", key[2]))
+                    else:
+                        s.heap[key] = tm.sym("Hiter.mem:%s" % (key[1],), ("A", "P", "I", key[1]))
+                for did, (name, q) in ids.items():
+                    v = s.locals.get(did)
+                    if not isinstance(v, tuple):
+                        s.locals[did] = tm.sym("iter_" + str(name), sort_of(q))
+                s.events.append(Event("iter_begin", None, [], tm.num(0, "I")))
+                if cond is not None and assume_cond:
+                    for s2, v in self.ev(cond, s):
+                        if s2.assume(tm.to_bool(v)):
+                            out.append(s2)
+                else:
+                    out.append(s)
+            res = self.exec(body, out)
+            return res
+
+        res = one_pass([s.clone() for s in pristine], ())
+        written = set()
+        entry_arrays = {}
+        for e in pristine:
+            for key, v in e.heap.items():
+                entry_arrays.setdefault(key, set()).add(v)
+        for s in res:
+            for key, v in s.heap.items():
+                if v.op == "store" and v not in entry_arrays.get(key, ()):
+                    written.add(key)
+        if written:
+            # the body must be correct from a state in which earlier iterations have already written
+            # those components: re-run with them arbitrary at entry
+            res = one_pass([s.clone() for s in pristine], sorted(written))
+        self.iter_written = written
+        self.iter_entry_arrays = entry_arrays
+        for s in res:
+            s.iter_entry_arrays = entry_arrays
+        return res
